@@ -18,6 +18,14 @@ CHECKS = {
    technique="same crash images as C02; recovered state compared with every prefix of the commit order (self-identifying values, per-transaction marker keys)",
    text="At every enumerated crash image the recovered key/value state must equal the model after some prefix of the commit order: whole transactions only, no gaps, nothing deleted or overwritten inside the prefix reappears.",
    note="Trusted: as C02. Commit order = sequence numbers of marker keys read back at the public boundary."),
+ "C04": dict(level="exploration", engine="E3", ref="DESIGN.md 3/C04, 2.5",
+   technique="runtime monitor over concurrent histories recorded at the client boundary: offline first-committer-wins, conservation (counters, append lists), abort-justification and aborted-leaves-nothing checkers; seeded delays at the commit pipeline's yield points",
+   text="Held on the concurrent histories counted in the evidence (1..16 committers doing read-modify-write counters, list appends and blind multi-key writes; long-lived and write-only transactions; more than one oracle GC interval of traffic; rotations/flushes/compactions running). Checked offline per history: no two committed writers of a key overlap (horizon of the later >= last seq of the earlier), counters/lists conserve every acknowledged update, an aborted transaction's marker key is absent, every conflict is justified by a later-committed writer of one of its keys, every retry by the pruned horizon. Schedules are sampled, not enumerated.",
+   note="Trusted: tick counter, marker-key commit order, verif point hook (delays). Injected apply/WAL failures are the business of C15 and are not injected here."),
+ "C05": dict(level="exploration", engine="E3", ref="DESIGN.md 3/C05, 2.5",
+   technique="runtime monitor over concurrent histories: probe transactions begun from inside the commit pipeline's yield points and by prober tasks, every read compared offline with the committed history at the reader's horizon; real-time order and horizon monotonicity on the tick order",
+   text="Held on the concurrent histories counted in the evidence (1..16 committers, batches of 3..121 entries incl. batches that meet a full memtable, probes at commit.after_wal / after_apply / after_mark_applied / publish.dequeued / publish.after_visible / after_publish). Checked offline: every read = model at the reader's horizon (so no fractured multi-key transaction), commit-returned-before-begin implies visible, horizons of successive begins never decrease, every acknowledged commit is present, sequence ranges do not overlap. Schedules are sampled.",
+   note="Trusted: as C04. 'distinct' counts distinct orders in which WAL writes and applies finished."),
  "C06": dict(level="exploration", engine="E1", ref="DESIGN.md 3/C06, 2.3",
    technique="runtime differential monitor: real store vs sequential reference model under fuzzed physical placement (rotate/flush/compaction/reopen) and option sets",
    text="Held on the generated logical histories x placement schedules x option sets listed in the evidence: every get and every forward/backward scan after every step equals the reference model, so executions that differ only in placement agree. Sampling, not enumeration.",
@@ -42,6 +50,10 @@ CHECKS = {
    technique="runtime monitor: byte-for-byte comparison of every value read (fresh transactions, readers and cursors opened before flush/compaction/clean-up) with self-identifying values, value-log file invariant after each placement step, plus crash images with the value log on",
    text="Held on the generated histories (value sizes 0, 1, threshold-1/threshold/threshold+1, multi-block, 80 KiB; value-log files from 256 B so that rotation happens inside one flush; both checksum levels) x placement schedules, and on the enumerated crash images of traced runs with the value log on.",
    note="Trusted: reference model, image builder. The 'no file removed while reachable' clause is checked as: every file from the oldest id a live table points into up to the newest exists, and every read through an older reader/cursor still resolves."),
+ "C17": dict(level="exploration", engine="E3 + E5 watchdog", ref="DESIGN.md 3/C17, 2.7",
+   technique="runtime stress monitor with a quiescence watchdog: tiny memtables, low stall thresholds, close() in the middle; a history is stuck only if calls are outstanding, no commit completes, the harness's own activity is paused and no thread of the process is runnable for 10 s; panics captured by a hook",
+   text="Held on the stress histories counted in the evidence (2..16 committers, memtable stall 2..4, L0 stall 5..11, 2..4 levels, rotation/flush/compaction wake-ups from a maintenance task in half of them, close() mid-flight in a third) plus two directed scenarios for the compaction-scheduling stalls found. Unbounded 'eventually' is restated as bounded progress under the quiescence criterion; a wall-clock overrun with runnable threads is inconclusive, never a violation.",
+   note="Trusted: /proc/self/task thread states. Injected WAL/apply failures are not part of this check (C15)."),
  "C14": dict(level="exploration", engine="E1 + checkpoint/restore steps", ref="DESIGN.md 3/C14",
    technique="runtime differential monitor with checkpoint and restore steps: model rewound at restore, full query battery after every step, checkpoint copied and opened standalone",
    text="Held on the generated three-segment histories (before checkpoint / between checkpoint and restore with flushes and compactions and cache-warming reads / after restore with commits, flush, compaction, reopen) x option sets counted in the evidence. One open known finding (version index neither checkpointed nor restored) is reported as KNOWN-FINDING and masked: these histories do not enable the version index.",
@@ -70,6 +82,7 @@ m={"version":1,
  "engines":[
    {"name":"E1","path":"harness/src/e1.rs","serves_properties":["C01","C06","C07","C09","C10","C11","C14"],"kind_free_text":"placement-fuzzed differential monitor against a sequential reference model (single driver)"},
    {"name":"E2","path":"harness/src/e2.rs, harness/src/trace.rs, shim/iotrace.c","serves_properties":["C02","C03","C07","C11"],"kind_free_text":"LD_PRELOAD syscall recorder -> synthesised crash images (process / power loss) -> verifier subprocess pool running the real code"},
+   {"name":"E3","path":"harness/src/e3.rs, harness/src/props/conc.rs","serves_properties":["C01","C04","C05","C17"],"kind_free_text":"concurrent histories recorded at the client boundary (tick counter), point-hook controller (seeded delays, gates, probes from inside yield points), offline checkers, quiescence watchdog"},
  ],
  "checks":checks,"not_applicable":na,
  "notes":"See DESIGN.md. known_findings.json lists the defects found on the unchanged tree; all listed so far are repaired by fix: commits and their directed scenarios stay in the checks as regression monitors."}
